@@ -603,7 +603,7 @@ func c20R4(p *core.Program, r *core.Report) {
 	// controlling conditions: only nil tests on Router()/Wait() results and loop bounds
 	bad := ""
 	nConds := 0
-	for _, cond := range controllingConds(uc.Block()) {
+	for _, cond := range mayConds(uc.Block()) {
 		nConds++
 		b, ok := cond.(*ssa.BinOp)
 		if !ok {
@@ -668,7 +668,7 @@ func c20R4(p *core.Program, r *core.Report) {
 						}
 					}
 				}
-				for _, cond := range controllingConds(cs.Instr.Block()) {
+				for _, cond := range mayConds(cs.Instr.Block()) {
 					if b, ok := cond.(*ssa.BinOp); !ok || b.Op != token.LSS {
 						actOK = false
 					}
@@ -680,8 +680,14 @@ func c20R4(p *core.Program, r *core.Report) {
 						routerOK = true
 					}
 				}
-				conds := controllingConds(cs.Instr.Block())
-				if len(conds) != 1 {
+				nOther := 0
+				for _, c := range mayConds(cs.Instr.Block()) {
+					if b, ok := c.(*ssa.BinOp); ok && b.Op == token.LSS {
+						continue // bound of the actions loop that precedes the router
+					}
+					nOther++
+				}
+				if nOther != 1 {
 					routerOK = false
 				}
 			}
@@ -844,7 +850,7 @@ func c20R6(p *core.Program, r *core.Report) {
 		}
 		found++
 		bad := ""
-		for _, ce := range core.ControllingConds(cs.Instr.Block()) {
+		for _, ce := range core.MayConds(cs.Instr.Block()) {
 			switch c := ce.Cond.(type) {
 			case *ssa.BinOp:
 				if c.Op == token.LSS {
